@@ -242,7 +242,7 @@ def judge_c07(case, result):
                 problems.append('CDX status %r, archived response has %d'
                                 % (row['s'], ref['status']))
             ct = rfc7230.get(ref['fields'], b'content-type')
-            m = re.match(rb'\s*([A-Za-z0-9!#$&^_.+-]+/[A-Za-z0-9!#$&^_.+-]+)', ct or b'')
+            m = re.match(rb'\s*([!#$%&\'*+.^_`|~0-9A-Za-z-]+/[!#$%&\'*+.^_`|~0-9A-Za-z-]+)', ct or b'')
             want_m = m.group(1).decode('latin-1') if m else '-'
             if row['m'] != want_m:
                 problems.append('CDX MIME type %r, archived response has %r'
